@@ -151,7 +151,7 @@ class Committed:
             out.append(rel)
         return out
 
-    def check_raises(self) -> tuple[bool, str]:
+    def check_raises(self, also_writer: bool = True) -> tuple[bool, str]:
         """open + check on a fresh handle AND check on the handle that wrote
         the dataset: both must refuse (returns False if either accepts)."""
         from sedpack.io import Dataset
@@ -163,6 +163,8 @@ class Committed:
             how = type(exc).__name__
         else:
             return False, "fresh handle"
+        if not also_writer:
+            return True, how
         try:
             self.h.ds.check(show_progressbar=False,
                             hash_checksums_values=self.root_expected)
@@ -266,7 +268,11 @@ def one_fault(c: Committed, ctx, rel: str, role: str, kind: str, pos: int,
         if not changed:
             ctx.count("not_a_modification")
             return
-        raised, how = c.check_raises()
+        # the writing handle is asked for every description fault and for a
+        # deterministic eighth of the others (it shares the list/shard code
+        # path with the fresh handle)
+        raised, how = c.check_raises(also_writer=(role == "info" or
+                                                  pos % 8 == 0))
         ctx.count("faults")
         ctx.count(f"faults:{role}:{kind}")
         if not raised:
